@@ -1,7 +1,7 @@
 (* C07 — the tie to the source: ClaimsData.Validate, to which every claim kind delegates its time checks, as
    translated on this run from v2/claims.go and from the bundled version-1 library (Gen/SrcValidate.v) appends to the
    validation results exactly the issues of the model's [v_claims_data]; the clock is one more observation. *)
-From JWT Require Import Base.GoSem Gen.SrcValidate Model.Validate Proofs.SrcValidate.
+From JWT Require Import Base.GoSem Gen.SrcValidate Gen.SrcValidateClaims Model.Validate Proofs.SrcValidate Proofs.SrcValidateClaims.
 Open Scope Z_scope.
 
 Theorem C07_source_claims_data_validate : forall (now : Z) (c : claims_data) (vr : list go_issue),
@@ -12,3 +12,38 @@ Theorem C07_source_v1_claims_data_validate : forall (now : Z) (c : claims_data) 
   V1.ClaimsData_Validate (cd_exp c) (cd_nbf c) now vr = (vr ++ map goi (v_claims_data now c))%list.
 Proof. exact src_v1_claims_data_validate. Qed.
 Print Assumptions C07_source_v1_claims_data_validate.
+
+(* ... and the claim kinds' own Validate methods, translated on this run (Gen/SrcValidateClaims.v), append exactly the
+   model's issue lists that C07_time_activation / _auth_request / _auth_response / _generic / _user count the time
+   issues of.  What nkeys says of a key is an unknown function in the translation, instantiated by the model's role
+   oracle; what Limits.Validate reports (CIDR, clock times, time zone) is an observation, instantiated by the model's
+   list.  (Account and operator claims, whose Validate methods are not translated, are tied by the correspondence
+   run only.) *)
+Open Scope list_scope.
+Theorem C07_source_activation_validate : forall role_of now (cd : claims_data) (a : activation) (vr : list go_issue),
+  SrcValidateClaims.V2.ActivationClaims_Validate (at_subject a) (at_type a) (cd_exp cd) (cd_nbf cd) (at_issuer_account a) (is_acct role_of) now vr
+  = vr ++ map SrcValidateClaims.goi (v_activation_claims now role_of true cd a).
+Proof. exact vc_activation_validate. Qed.
+Print Assumptions C07_source_activation_validate.
+Theorem C07_source_auth_request_validate : forall role_of now (cd : claims_data) (k : string) (vr : list go_issue),
+  SrcValidateClaims.V2.AuthorizationRequestClaims_Validate (cd_exp cd) (cd_nbf cd) k (is_user role_of) now vr
+  = vr ++ map SrcValidateClaims.goi (v_auth_request now role_of cd k).
+Proof. exact vc_auth_request. Qed.
+Print Assumptions C07_source_auth_request_validate.
+Theorem C07_source_auth_response_validate : forall role_of now (cd : claims_data) (r : auth_response) (vr : list go_issue),
+  SrcValidateClaims.V2.AuthorizationResponseClaims_Validate (cd_aud cd) (cd_exp cd) (cd_nbf cd) (ar_error r) (ar_issuer_account r) (ar_jwt r) (cd_sub cd)
+    (is_acct role_of) (is_server role_of) (is_user role_of) now vr
+  = vr ++ map SrcValidateClaims.goi (v_auth_response now role_of cd r).
+Proof. exact vc_auth_response. Qed.
+Print Assumptions C07_source_auth_response_validate.
+Theorem C07_source_generic_validate : forall now (cd : claims_data) (vr : list go_issue),
+  SrcValidateClaims.V2.GenericClaims_Validate (cd_exp cd) (cd_nbf cd) now vr = vr ++ map SrcValidateClaims.goi (v_generic now cd).
+Proof. exact vc_generic. Qed.
+Print Assumptions C07_source_generic_validate.
+Theorem C07_source_user_validate : forall role_of cidr_ok hhmmss_ok tz_ok now (cd : claims_data) (u : user) (resp_nil : bool) (vr : list go_issue),
+  SrcValidateClaims.V2.UserClaims_Validate (is_acct role_of) now (cd_exp cd) (cd_nbf cd) (us_issuer_account u)
+    (map SrcValidateClaims.goi (v_user_limits cidr_ok hhmmss_ok tz_ok (us_limits u)))
+    (p_allow (perm_pub (us_perms u))) (p_deny (perm_pub (us_perms u))) resp_nil (p_allow (perm_sub (us_perms u))) (p_deny (perm_sub (us_perms u))) vr
+  = vr ++ map SrcValidateClaims.goi (v_user_claims now role_of cidr_ok hhmmss_ok tz_ok cd u).
+Proof. exact vc_user_claims. Qed.
+Print Assumptions C07_source_user_validate.
